@@ -127,9 +127,11 @@ class FaultFS:
         return False
 
 
-def apply_ops(files, ops, upto, torn=None):
+def apply_ops(files, ops, upto, torn=None, partial_fault=None):
     """Rebuild {path: bytes} after ops[0:upto]; if torn is not None, op[upto] (a
-    write) is applied with only its first ``torn`` bytes."""
+    write) is applied with only its first ``torn`` bytes.  Operations marked 'faulted'
+    (an injected error) have no effect except a short write's 'written' prefix.  Paths may
+    be absolute or base names (keys of ``files`` decide)."""
     files = {k: bytearray(v) for k, v in files.items()}
 
     def do(op, limit=None):
@@ -158,6 +160,12 @@ def apply_ops(files, ops, upto, torn=None):
         elif op['op'] == 'unlink':
             files.pop(p, None)
     for op in ops[:upto]:
+        if op.get('faulted'):
+            if op['op'] == 'write' and op.get('written'):
+                do(op, op['written'])
+            elif op['op'] == 'open' and False:
+                pass
+            continue
         do(op)
     if torn is not None and upto < len(ops) and ops[upto]['op'] == 'write':
         do(ops[upto], torn)
